@@ -4,7 +4,7 @@ import asyncio
 
 
 def plan(tier, seed):
-    return [('wire-wrap', 200 if tier == 'quick' else 8000), ('dup-id', len(_dup_cases()))]
+    return [('wire-wrap', 1000 if tier == 'quick' else 12000), ('dup-id', len(_dup_cases()))]
 
 
 async def _wrap(rng, desc):
